@@ -8,6 +8,7 @@ from ..pyfacts import AnalysisError, src, parent
 from ..genfacts import new_codegen, GenFacts, GEN, STDLIB
 from ..asmtext import AsmText, parse_offset
 from ..report import Remap
+from ..consteval import Interp
 
 MAIN = 'hidc/__main__.py'
 BLOCKS = 'hidc/ast/blocks.py'
@@ -16,8 +17,6 @@ NONDET_NAMES = {'hash', 'id', 'random', 'time', 'uuid', 'datetime', 'environ', '
 
 # set-typed iterations that are provably order-insensitive (one reason each)
 SET_ITERATION_OK = {
-    ('hidc/lexer/readers.py', 'keyword_tokens'): 'builds a dict used only for membership / lookup by spelling',
-    ('hidc/lexer/readers.py', 'symbol_tokens'): 'sorted by length; symbols of equal length are never prefixes of one another (C12.R3), so ties cannot matter',
     ('hidc/codegen/stdlib.py', 'abstract_funcs'): 'iterates a dict (insertion ordered) and fills sets used only for membership',
 }
 
@@ -101,6 +100,7 @@ def run(repo, chk):
         t = src(e).replace('self.', '').replace('tokens.', '').replace('stdlib.', '')
         return t in names_only
     n_iter = 0
+    lexer_sites = []
     for rel, tree in repo.files.items():
         for n in ast.walk(tree):
             iters = []
@@ -132,12 +132,33 @@ def run(repo, chk):
                     p = parent(p)
                 reason = SET_ITERATION_OK.get((rel, owner))
                 key = f'{rel}::{owner or fn_of(n)}::iterates {src(itx)[:40]}'
+                par = parent(itx)
+                if isinstance(par, ast.Call) and src(par.func) == 'sorted' and not par.keywords and par.args[0] is itx:
+                    reason = 'sorted() without a key: the result does not depend on the iteration order'
+                elif isinstance(n, ast.SetComp) and len(n.generators) == 1:
+                    reason = 'builds another set: no order is introduced here'
+                elif rel.startswith('hidc/lexer/'):
+                    lexer_sites.append(key)
+                    continue
                 if rel.startswith('hidc/codegen/') and rel != 'hidc/codegen/stdlib.py':
                     reason = None
                 chk.expect(reason is not None, 'C18.D1', key, reason or
                            'iteration / pop over a set: the order depends on the per-process hash seed, so labels, function order '
                            'or emitted text can differ between runs', rel, getattr(n, 'lineno', 0))
     chk.count('set_iterations', n_iter)
+    if lexer_sites:
+        # the lexer package iterates sets (the fixed tokens are collected in one): whether the order can reach the token
+        # stream is decided by interpreting the readers and lex() under both iteration orders of every set (each pair of
+        # elements is met in both relative orders) against the reference tokenisation
+        from . import c12
+        it0 = Interp(repo)
+        spellings = [str(t_) for t_ in it0.load('hidc/lexer/tokens.py')['enum_tokens']]
+        c12.fixed_token_readers(repo, chk, rule='C18.D1')
+        for order in ('fwd', 'rev'):
+            c12.lexer_tabulation(repo, chk, spellings, order=order, small=True, rule='C18.D1')
+        for key in lexer_sites:
+            chk.ok('C18.D1', key, 'the token stream is the same under both iteration orders of the sets of the lexer package '
+                   '(fixed-token readers and lex() interpreted under each)')
     # the collections the generator iterates / pops are ordered
     cg = repo.find_class(GEN, 'CodeGen')
     ordered = {'numbered_labels': 'dict', 'string_labels': 'dict', 'const_data': 'dict', 'state_data': 'dict', 'func_queue': 'deque',
